@@ -656,6 +656,47 @@ impl LogInnerManager {
     }
 }
 
+#[cfg(rnacos_verif)]
+#[derive(Debug, Clone)]
+pub struct VerifLogDiag {
+    pub indexs: Vec<(u64, u64)>,
+    pub index_cursor: u64,
+    pub data_cursor: u64,
+    pub msg_count: u64,
+    pub file_len: u64,
+    pub cur_cnt: u16,
+    pub split_off: u64,
+    pub data_area_index: u16,
+}
+
+#[cfg(rnacos_verif)]
+impl LogInnerManager {
+    /// read-only view of the private cursors (diagnostic)
+    pub fn verif_diag(&self) -> VerifLogDiag {
+        VerifLogDiag {
+            indexs: self
+                .indexs
+                .iter()
+                .map(|e| (e.log_index, e.file_index))
+                .collect(),
+            index_cursor: self.index_cursor,
+            data_cursor: self.data_cursor,
+            msg_count: self.msg_count,
+            file_len: self.file_len,
+            cur_cnt: self.current_index_count,
+            split_off: self.split_off_index,
+            data_area_index: self.header.data_area_index,
+        }
+    }
+
+    /// wait until every buffered tokio write of both handles has reached the file
+    pub async fn verif_sync(&mut self) -> anyhow::Result<()> {
+        self.data_file.flush().await?;
+        self.index_file.flush().await?;
+        Ok(())
+    }
+}
+
 /// 一个日志文件对应一个RaftLogActor
 pub struct RaftLogActor {
     path: String,
